@@ -33,7 +33,10 @@ PROPS = {
         "rule": "core: fixed regression corpus; every delta matrix with entries in {0,+1,-1} and m*n <= 6 (thorough: 8) over rotating "
                 "constructors; random schema trees (depth <= 4, fan-out <= 4, all 20 BSON element types, arrays in documents in arrays) with "
                 "per-leaf boundary values and delta patterns, every compressing constructor, N in {1,2,3,7,len,len+1}. Distinct = distinct case line.",
-        "level_text": "Theorems (Props/C01.lean) for all inputs. End to end for the streaming collector with every chunk size n and every number of documents "
+        "level_text": "Theorems (Props/C01.lean) for all inputs. AT THE BYTE LEVEL (streaming_file_roundtrip, batch_file_roundtrip; Lemmas/FileE2E.lean): the outer documents {_id, type, doc | data} "
+                      "are serialised as the collectors serialise them and the reader model frames, parses, inflates and decodes them - for every chunk size, every number of documents, any schemas (rejected "
+                      "documents included) the BYTES the streaming collector hands to its writer, resp. the bytes Resolve of the batch collector returns, are read back by ReadChunks without error into exactly the "
+                      "accepted documents' values, once each and in order; zlib enters only through the assumption inflate (deflate p) = (p, clean end). End to end for the streaming collector with every chunk size n and every number of documents "
                       "(streaming_collector_roundtrip): Add d0 and any documents ds of its schema - what was handed to the writer is one metric chunk per run of consecutive "
                       "documents, the pending chunk is one more run, the runs concatenated are d0 :: ds, and the reader decodes every chunk to exactly its documents with the "
                       "non-metric leaves removed, in order. The same for the batch collector (batch_collector_roundtrip: Resolve returns one chunk per run), and for the two "
@@ -77,7 +80,7 @@ PROPS = {
                 "a second final Resolve must not change what is emitted. "
                 "wire-dec (decode direction): streams from an independent reference encoder (split zero runs, runs crossing metric boundaries, type as "
                 "int32/int64/double, unknown types, interleaved metadata, zlib levels incl. stored, extra top-level fields) decoded by library and model.",
-        "level_text": "Theorems (Props/C03.lean): decoder_complete_deltas — every spec-conformant token stream (any splitting/placement of zero runs) decodes to "
+        "level_text": "encoder_output_is_decoder_input (Props/C03.lean, Lemmas/FileE2E.lean): the outer documents the encoder writes - {_id: datetime, type: int32 0, doc} and {_id: datetime, type: int32 1, data: binary subtype 0 = le32 |payload| ++ zlib payload}, in this field order - are given as BSON trees and bytes, and ANY list of them (metadata documents and decodable chunks in any order) is read by the reader model without error into exactly its chunks: same reference documents, same samples, same order; zlib assumed only to satisfy inflate (deflate p) = (p, clean end); data_field_is_wellformed_binary: the strict parser accepts the data field whatever follows. Theorems (Props/C03.lean): decoder_complete_deltas — every spec-conformant token stream (any splitting/placement of zero runs) decodes to "
                       "the deltas it denotes; encoder_stream_roundtrip; encoder_is_canonical - the stream getPayload writes is the byte rendering of a token stream that denotes exactly "
                       "the deltas, with no zero literal and no zero run followed by another (every run maximal, also across metric boundaries); payload layout (reference document "
                       "verbatim, counts, stream); type field of any BSON number type; unknown types skipped; metadata "
